@@ -210,6 +210,25 @@ CHECKS = {
         technique="Lean 4 proof of the element/state identities + exact-rational differential correspondence + real-code round trips",
         ref="5/C12",
     ),
+    "C03": dict(
+        text="Theorems (Lean 4): the integrator is an abstract lawful flow; around it the code's restart loop is modelled exactly. Composability: propagating to any intermediate "
+             "time and on equals propagating straight through, with any time-ordered list of state-jump events, each applied once in the part it falls in (induction over the event "
+             "list); bulk output: the n-th state propagateBulk returns equals a separate propagate to the n-th requested time, for every output grid; batch consistency for every "
+             "batch size K: the strided slices state[jj:jj+half:step] and state[jj+half::step] of the C-order flattened (6,K) array touch exactly rows 0-2 and 3-5 of column jj, "
+             "the batched derivative is the flattened batch of per-column derivatives and a column's derivative does not depend on the other columns; the Lagrange-coefficient "
+             "Kepler solution has angular momentum (f*gd - fd*g) r0 x v0 (the solver's acceptance test is conservation of h), and such steps compose with multiplicative "
+             "determinant; binary64: moving d seconds between start epoch and elapsed time changes the Julian date the force model sees by at most 3*2^-32 + 3*2^-44 day (6e-5 s). "
+             "Tied to the code by exact correspondence (numpy slices/ravel against the index model; the real batched right-hand side against the model's ravel of the real "
+             "per-column right-hand sides, bit for bit; the real propagate/propagateBulk loop with real impulse events on constant-velocity dynamics against the model's loop; the "
+             "epoch expression bit for bit) and by the metamorphic relations evaluated on the real integrators: split vs whole, batch (C, Fortran, transposed-view, strided "
+             "layouts) vs single, bulk vs single, two-body vs closed-form Kepler, energy and angular momentum drift, epoch shift across midnight and year ends incl. the force at "
+             "one instant described both ways.",
+        note=BASE_TB + "scipy solve_ivp is assumed to approximate a lawful flow within its tolerances: real trajectories are compared to 3e-4 km / 3e-7 km/s per revolution "
+             "(epoch-split: 2e-6 km, 1e-3 km with radiation pressure because of the shadow-boundary kink); the loop restarts one ulp after an event, the model at the event time; "
+             "convergence of the universal-variable iteration is exercised on the real code only.",
+        technique="Lean 4 proof over an abstract flow + exact layout/loop/epoch correspondence + metamorphic relations on the real integrators",
+        ref="5/C03",
+    ),
     "C11": dict(
         text="Theorems (Lean 4, corollaries of C04/C05 for the Terrestrial model): the state the site reports, converted back with the reduction of the same instant, is exactly "
              "the configured Earth-fixed position at rest; the anchor computed at construction is the configured geodetic point; the inertial velocity is PNR(omega x W r) with "
